@@ -167,9 +167,15 @@ def rule_drop_visits_all(ctx):
         ptr = fn.expr_of_operand(t["args"][0])
         good = ln[0] == "call" and ln[1] == "boxcar::Location::bucket_len"
         idx = strip_casts(ln[2][0]) if good else None
+        piped = None
+        if not good:
+            piped = _len_and_ptr_from_pipeline(ctx, fn, ln, ptr)
         # idx must be the enumerate index of the same iteration as the pointer
         if good and idx[0] != "const":
             ctx.ok(site(fn, bi), "bucket freed with Location::bucket_len(its index)")
+        elif piped:
+            ctx.ok(site(fn, bi), "bucket freed with the (bucket_len(index), pointer) pair a map stage over the zipped bucket indices produced; null buckets filtered out")
+            continue
         else:
             ctx.violation(DROP + "|dealloc-len|1", site(fn, bi), "bucket freed with a length that is not Location::bucket_len(index of this bucket): %s" % show(ln))
         gs = [g for g in guards_of(fn, bi) if g[3][0] == "call" and str(g[3][1]).endswith("::is_null")]
@@ -186,6 +192,38 @@ def rule_drop_visits_all(ctx):
             if any(x[0] in ("bin", "checked") and x[1] == "Add" and x[3][0] == "const" and x[3][1] == 1 for x in walk(b)):
                 eager += 1
     ctx.note("writers allocate bucket+1 eagerly at %d site(s): buckets can be non-null after a null one" % eager)
+
+
+def _len_and_ptr_from_pipeline(ctx, fn, ln, ptr):
+    """`for (len, entries) in (0..BUCKETS).zip(buckets.iter_mut()).map(|(i, b)| (bucket_len(i), *b.entries.get_mut())).filter(non-null)`:
+    the length and the pointer are two components of one item of a chain whose map stage computes bucket_len of the zipped
+    index, over all buckets, and whose only subset stage drops null pointers."""
+    from common import iter_pipeline
+    nx = [x for x in walk(ln) if x[0] == "call" and str(x[1]).endswith("::next")]
+    px = [x for x in walk(ptr) if x[0] == "call" and str(x[1]).endswith("::next")]
+    if len(nx) != 1 or len(px) != 1 or nx[0][4] != px[0][4]:
+        return False
+    t = fn.blocks[nx[0][4][0]]["term"]
+    try:
+        stages = iter_pipeline(fn, t, 0)
+    except Exception:
+        return False
+    kinds = [st[0] for st in stages]
+    if any(k.startswith(("truncating:", "unknown:")) or k == "total:rev" for k in kinds):
+        return False
+    src_ok = any("buckets" in show(st[2]) for st in stages if st[0] in ("source", "zip")) or "buckets" in show(stages[0][2] if stages else ("?",))
+    maps = [st for st in stages if st[0] == "total:map" and st[1]]
+    subs = [st for st in stages if st[0].startswith("subset:")]
+    if not src_ok or len(maps) != 1 or any(not st[1] for st in subs):
+        return False
+    mf = get_fn(ctx.facts, "nucleo", maps[0][1])
+    has_len = any(callee(t2) == "boxcar::Location::bucket_len" and not strip_casts(mf.expr_of_operand(t2["args"][0]))[0] == "const" for _, t2 in mf.calls())
+    nonnull = True
+    for st in subs:
+        ff = get_fn(ctx.facts, "nucleo", st[1])
+        if not any(callee(t2).endswith("::is_null") for _, t2 in ff.calls()):
+            nonnull = False
+    return has_len and bool(subs) and nonnull
 
 
 def rule_dealloc_callers(ctx):
@@ -263,8 +301,19 @@ def _dealloc_chain_form(ctx, fn):
             e = f.expr_of_operand(t2["args"][0])
             kind = "slot" if any(x[0] == "field" and x[2] == "slot" for x in walk(e)) else "column"
             kinds.add(kind)
-            if gated:
-                ctx.ok(site(f, b2), "drop of the %s happens only for entries that passed the active-flag filter" % kind)
+            # ... or the closure itself tests the flag in front of the drop (`if !active { return }`)
+            local_gate = False
+            for gbi_, sb_, vals_, ge_ in guards_of(f, b2):
+                if any(x[0] == "call" and (str(x[1]).endswith("Atomic::<bool>::get_mut") or str(x[1]).endswith("Atomic::<bool>::load")) for x in walk(ge_)) \
+                        and any(x[0] == "field" and x[2] == "active" for x in walk(ge_)):
+                    g0_ = strip_casts(ge_)
+                    neg_ = False
+                    while g0_[0] == "un" and g0_[1] == "Not":
+                        g0_ = strip_casts(g0_[2]); neg_ = not neg_
+                    if (vals_ in ([None], [1])) != neg_:
+                        local_gate = True
+            if gated or local_gate:
+                ctx.ok(site(f, b2), "drop of the %s happens only for entries that passed the active-flag %s" % (kind, "filter" if gated else "test in the closure"))
             else:
                 ctx.violation("boxcar::Bucket::<T>::dealloc|drop-%s|1" % kind, site(f, b2),
                               "drop of the %s is not guarded by the entry's active flag: slots that were never initialised would be dropped" % kind)
@@ -294,7 +343,12 @@ def rule_drop_gated(ctx):
             # *(*entry).active.get_mut()
             if any(x[0] == "call" and str(x[1]).endswith("Atomic::<bool>::get_mut") for x in walk(ge)) or \
                any(x[0] == "call" and atomic_op_name(x) == "load" for x in walk(ge)):
-                gs.append(vals)
+                g0 = strip_casts(ge)
+                neg = False
+                while g0[0] == "un" and g0[1] == "Not":
+                    g0 = strip_casts(g0[2]); neg = not neg
+                # `if !active { return }`: continuing on the 0-edge of the negation is the active == true edge
+                gs.append(([1] if vals == [0] else ([0] if vals in ([None], [1]) else vals)) if neg else vals)
         if gs and all(v in ([None], [1]) for v in gs):
             ctx.ok(site(fn, bi), "drop of the %s is control-dependent on this entry's active flag" % kind)
         else:
